@@ -246,6 +246,30 @@ def placers(rng, vr, m, seedbase):
     return ps
 
 
+def large_problems(rng, chk):
+    """The far end of "all graphs, all machines": a pipeline of over a thousand vertices (one connected component
+    that is one long path) and machines of over a thousand chips.  Unit core demand, so the success guarantee applies."""
+    out = []
+    for k in range(chk.pick(1, 4)):
+        n = rng.randint(1100, 1600)
+        names = ["p%d" % i for i in range(n)]
+        rng.shuffle(names)
+        vr = {v: {Cores: 1} for v in names}
+        chain = sorted(names, key=lambda v: int(v[1:]))
+        nets = [Net(a, [b]) for a, b in zip(chain, chain[1:])]
+        m = Machine(rng.randint(10, 12), rng.randint(10, 12), chip_resources={Cores: 17, SDRAM: 128})
+        out.append((vr, nets, m, []))
+    for k in range(chk.pick(1, 4)):
+        w = rng.randint(33, 40)
+        m = Machine(w, (1100 // w) + rng.randint(1, 6), chip_resources={Cores: 2},
+                    dead_chips={(rng.randrange(w), rng.randrange(20)) for _ in range(rng.randint(0, 5))})
+        names = ["q%d" % i for i in range(rng.randint(5, 40))]
+        vr = {v: {Cores: 1} for v in names}
+        nets = [Net(rng.choice(names), rng.sample(names, 3)) for _ in range(10)]
+        out.append((vr, nets, m, []))
+    return out
+
+
 def run_one(name, f, args, vidx, n, evs, snapshots=None):
     signal.signal(signal.SIGALRM, _alarm)
     signal.setitimer(signal.ITIMER_REAL, WATCHDOG_S)
@@ -312,6 +336,19 @@ def run(chk):
         tr["ev"] = evs
         traces.append(tr)
         chk._nontrivial.add(str((tr["chips"], tr["vres"], tr["loc"], tr["same"], tr["gres"], tr["lres"])))
+    for vr, nets, m, cons in large_problems(rng, chk):
+        vidx = {v: k + 1 for k, v in enumerate(vr)}
+        tr = problem_json(vr, m, cons, vidx)
+        tr["easy_generated"] = True
+        evs = []
+        for name, f in placers(rng, vr, m, chk.seed + 17):
+            if name.startswith("sa-"):
+                continue              # (annealing a thousand vertices takes minutes; the other placers take seconds)
+            run_one(name, f, (vr, nets, m, cons), vidx, len(vr), evs)
+            chk.evaluations += 1
+        tr["ev"] = evs
+        traces.append(tr)
+        chk._nontrivial.add(str((tr["w"], tr["h"], len(vr))))
     nraise = sum(1 for t in traces for e in t["ev"] if e[0] == "raise")
     nplaced = sum(1 for t in traces for e in t["ev"] if e[0] == "placed")
     nswap = sum(1 for t in traces for e in t["ev"] if e[0] == "swap")
@@ -323,7 +360,8 @@ def run(chk):
                 "location / same-chip (chained, duplicated members) / global and per-chip reservation / endpoint / "
                 "alignment constraints, vertices needing nothing) x 9 placer configurations each (sequential, "
                 "custom orders, breadth-first, Hilbert x2, RCM, random, annealing effort 0) + annealing with the "
-                "Python and C kernels at effort 0.1/1.0 on a subset; evaluations = placer runs; distinct = distinct "
+                "Python and C kernels at effort 0.1/1.0 on a subset; plus pipelines of 1100-1600 vertices and machines of over 1100 chips through the "
+                "placers other than annealing; evaluations = placer runs; distinct = distinct "
                 "problem" % nprob)
     chk.exhaustive = False
     chk.assumptions.append("termination is observed with a %d s watchdog per placer run (an observation, not a proof)"
